@@ -163,14 +163,14 @@ def brentsroot(f, bounds, tol=None, verbose=False, return_interval=False):
         if D.ar_numpy.abs(fa) < D.ar_numpy.abs(fb):
             a, b = b, a
             fa, fb = fb, fa
-        conv = (fb == 0 or fs == 0 or D.ar_numpy.abs(b - a) < tol)
+        conv = (fb == 0 or fs == 0 or D.ar_numpy.abs(b - a) < tol * D.ar_numpy.maximum(1.0, D.ar_numpy.abs(b)))
         if numiter >= 64:
             break
     if verbose:
         with numpy.printoptions(precision=17, linewidth=200):
             print(f"[{numiter}] a={D.ar_numpy.to_numpy(a)}, b={D.ar_numpy.to_numpy(b)}, f(a)={D.ar_numpy.to_numpy(fa)}, f(b)={D.ar_numpy.to_numpy(fb)}")
     # success: the residual vanishes, or the bracket [a, b] still straddles a sign change and has converged
-    success = (D.ar_numpy.abs(f(b)) <= tol) | ((D.ar_numpy.abs(b - a) < tol) & (D.ar_numpy.sign(fa) * D.ar_numpy.sign(fb) <= 0))
+    success = (D.ar_numpy.abs(f(b)) <= tol) | ((D.ar_numpy.abs(b - a) < tol * D.ar_numpy.maximum(1.0, D.ar_numpy.abs(b))) & (D.ar_numpy.sign(fa) * D.ar_numpy.sign(fb) <= 0))
     if return_interval:
         return b, success, (a, b)
     else:
@@ -308,11 +308,11 @@ def brentsrootvec(f, bounds, tol=None, verbose=False, return_interval=False, acc
         a[mask], b[mask] = b[mask], a[mask]
         fa[mask], fb[mask] = fb[mask], fa[mask]
 
-        conv = D.ar_numpy.logical_not(D.ar_numpy.logical_or(D.ar_numpy.logical_or(fb == 0, fs == 0), D.ar_numpy.abs(b - a) < tol))
+        conv = D.ar_numpy.logical_not(D.ar_numpy.logical_or(D.ar_numpy.logical_or(fb == 0, fs == 0), D.ar_numpy.abs(b - a) < tol * D.ar_numpy.maximum(1.0, D.ar_numpy.abs(b))))
         conv = conv & (numiter <= 64)
         not_conv = D.ar_numpy.logical_not(conv)
         # success: the residual vanishes, or the bracket [a, b] still straddles a sign change and has converged
-        true_conv = (D.ar_numpy.abs(fb) <= tol) | ((D.ar_numpy.abs(b - a) < tol) & (D.ar_numpy.sign(fa) * D.ar_numpy.sign(fb) <= 0))
+        true_conv = (D.ar_numpy.abs(fb) <= tol) | ((D.ar_numpy.abs(b - a) < tol * D.ar_numpy.maximum(1.0, D.ar_numpy.abs(b))) & (D.ar_numpy.sign(fa) * D.ar_numpy.sign(fb) <= 0))
 
     if verbose:
         with numpy.printoptions(precision=17, linewidth=200):
